@@ -231,7 +231,7 @@ class _Alloc:
                     ch = fs[a:a + k]
                     break
             else:
-                raise ScenarioInvalid("no contiguous run of %d" % k)
+                ch = fs[:k]          # fragmented disk: first fit, ascending
         elif policy == "ascending":
             ch = sorted(rng.sample(free, k))
         elif policy == "descending":
